@@ -47,7 +47,8 @@ def cell_items(idx, c):
     if c["mode"] in ("bin", "cmp"):
         items.append({"k": "V", "x": b, "ty": mc.prim(t), "e": mc.lit(t, c["b"])})
     if c["mode"] == "bin":
-        items.append({"k": "P", "e": mc.binop(c["op"], mc.var(a), mc.var(b))})
+        # one print! call with three arguments: the result and both operands (formatting of several values per call)
+        items.append({"k": "PP", "es": [mc.binop(c["op"], mc.var(a), mc.var(b)), mc.var(a), mc.var(b)]})
     elif c["mode"] == "un":
         items.append({"k": "P", "e": {"k": "un", "op": c["op"], "e": mc.var(a)}})
     elif c["mode"] == "cast":
@@ -57,9 +58,11 @@ def cell_items(idx, c):
         items += [{"k": "IO", "c": cond}, {"k": "P", "e": mc.lit("u8", [1])}, {"k": "C"},
                   {"k": "EO"}, {"k": "P", "e": mc.lit("u8", [0])}, {"k": "C"}]
     if c["mode"] == "cmp":
-        expected = "1" if c["r"][0] else "0"
+        expected = ["1" if c["r"][0] else "0"]
+    elif c["mode"] == "bin":
+        expected = [mc.shown(c["r"], c["rt"]), mc.shown(c["a"], t), mc.shown(c["b"], t)]
     else:
-        expected = mc.shown(c["r"], c["rt"])
+        expected = [mc.shown(c["r"], c["rt"])]
     return items, expected
 
 
@@ -124,7 +127,7 @@ def part_ops(rep, tier, seed, layouts):
             items, want = cell_items(k, c)
             body.append({"k": "M", "i": k})
             body += items
-            exp.append([want])
+            exp.append(want)
             ks.append(cell_key(c))
         programs.append(mc.program([mc.main_fn(body)]))
         expected.append(exp)
@@ -277,7 +280,7 @@ def run(rep, tier, seed, selftest):
         import io, contextlib
         buf = io.StringIO()
         with contextlib.redirect_stdout(buf):
-            check_pack(probe, "ops", [prog], [[[want + "9"]]], [["selftest"]], 1, seed, "C01-selftest")
+            check_pack(probe, "ops", [prog], [[want[:-1] + [want[-1] + "9"]]], [["selftest"]], 1, seed, "C01-selftest")
         selftests["corrupted_expectation_detected"] = len(probe.violations) == 1
         for f in probe.violations:
             if os.path.exists(f):
